@@ -38,7 +38,8 @@ META = {
                    "Float formatting is Python's str/float round trip (exact), compared by the judge, not in the model."),
     'rule': ("cases = generated force fields (1-3 blocks with guarded bonds, exclusions, impropers; 0-4 links) x residue graphs of "
              "1-7 residues (path/tree/ring) through gen_params by .json or seq route, output file fresh or pre-existing; non-trivial "
-             "= >= 2 residues, a link applied and >= 2 interaction sections written; distinct by (force-field text, graph, route)"),
+             "= >= 2 residues, a link applied and >= 2 interaction sections written; distinct by (force-field text, graph, route)"
+             "; directed / added families (waves 10-12): log entries with atom-removing links (judged by the file); parameters given as macro names read back through a topology that defines them"),
 }
 
 PRELUDE = """From Coq Require Import String List.
